@@ -466,7 +466,51 @@ func ruleExpiry(c *Ctx) {
 			at, isAt := edgeAtom(info, e)
 			return isAt && at.Kind == "nil" && at.Op == token.NEQ && identObj(info, at.X) == errv && firstCondAfter(g, recvNode, e.From)
 		})
-		if _, leaves := seenOnly[g.Exit]; leaves {
+		// the same question with the error variable tracked along the path: an
+		// `err != nil` edge is the receive's error edge only while err still
+		// holds the receive's error (it may be reused for a later step)
+		leavesFresh := false
+		{
+			type st struct {
+				n     *Node
+				fresh bool
+			}
+			seenSt := map[st]bool{}
+			var work []st
+			for _, e := range recvNode.Succs {
+				work = append(work, st{e.To, true})
+			}
+			for len(work) > 0 {
+				cur := work[len(work)-1]
+				work = work[:len(work)-1]
+				if seenSt[cur] || cur.n == recvNode {
+					continue
+				}
+				seenSt[cur] = true
+				if cur.n == g.Exit {
+					leavesFresh = true
+					break
+				}
+				fresh := cur.fresh
+				if cur.n.Ast != nil {
+					defsN, _ := nodeDefsUses(info, cur.n.Ast)
+					if _, re := defsN[errv]; re {
+						fresh = false
+					}
+				}
+				for _, e := range cur.n.Succs {
+					at, isAt := edgeAtom(info, e)
+					if fresh && isAt && at.Kind == "nil" && at.Op == token.NEQ && identObj(info, at.X) == errv {
+						continue // the receive failed: leaving is right
+					}
+					if !fresh && isAt && at.Kind == "nil" && at.Op == token.EQL && identObj(info, at.X) == errv {
+						// err now belongs to a later step; its nil edge is an ordinary edge
+					}
+					work = append(work, st{e.To, fresh})
+				}
+			}
+		}
+		if _, leaves := seenOnly[g.Exit]; leaves || leavesFresh {
 			c.R.Violate("R-EXPIRY", p.Pos(recvNode.Ast), f.Name, "Run ends only on receive error",
 				"the dispatch loop can end although the session/stream is healthy (e.g. when one inbound connection fails its negotiation): every later dial from the peer then waits for an ack forever", p.PathTo(seenOnly, g.Exit))
 		} else {
